@@ -212,7 +212,12 @@ def _e2e_worker(job):
                                   "db": st.one_of(st.none(), st.none(), st.integers(1, 40)),
                                   # the queue program cannot be started for the first DATA (one of the three pipe() calls or the fork() fails):
                                   # the client must not be invited to send the message - there is no one to take it
-                                  "qqfail": st.one_of(st.none(), st.none(), st.none(), st.sampled_from([["pipe", 0], ["pipe", 1], ["pipe", 2], ["fork", 0]]))})
+                                  "qqfail": st.one_of(st.none(), st.none(), st.none(), st.sampled_from([["pipe", 0], ["pipe", 1], ["pipe", 2], ["fork", 0]])),
+                                  # the queue program (a QMAILQUEUE filter that refuses early, a queue program that hits a full disk) is gone
+                                  # before it has read its input: [exit status, filler lines of 70 bytes]. The server's own writes into the
+                                  # pipes fail (EPIPE; SIGPIPE must not end it): the message is still read up to CRLF.CRLF, refused with the
+                                  # class of the exit status, and the bytes after the terminator are the next commands
+                                  "qqearly": st.one_of(st.none(), st.none(), st.none(), st.tuples(st.sampled_from([31, 53, 71, 81]), st.sampled_from([0, 1, 20, 120, 1100])).map(list))})
     stats = vlib.Stats()
     h = sandbox.Home(tree, os.path.join(vlib.scratch_root(), "c05e2e-%d" % wid))
     h.control("me", "me.example\n")
@@ -221,17 +226,23 @@ def _e2e_worker(job):
     def runfn(sc, stats):
         shutil.rmtree(rec, ignore_errors=True)
         lines = [vlib.unjson(x) for x in sc["lines"]]
+        qe = None if sc.get("qqfail") else sc.get("qqearly")
+        if qe:
+            lines = lines + [b"filler %06d " % i + b"f" * 56 for i in range(qe[1])]
         if any(l.startswith(b".\r") for l in lines):
             stats.slack += 1          # '.'+bare-CR line: unspecified (see C05 slack)
             return None
         payload = _e2e_encode(lines)
         exp = b"".join(l + b"\n" for l in lines)
-        db = sc.get("db")
+        db = None if qe else sc.get("db")
         h.control("databytes", ("%d\n" % db) if db else None)
         over = bool(db) and len(exp) > db
         rest = b"NOOP\r\n" + (b"MAIL FROM:<b@x>\r\nRCPT TO:<c@me.example>\r\nDATA\r\n" if sc["second"] else b"")
         env = h.env(role="smtpd", uid=h.uids["d"], trace=False, QMAILQUEUE=sandbox.STANDIN, TCPREMOTEIP="1.2.3.4",
                     **sandbox.standin_env(rec, read="01", qq=True))
+        if qe:
+            # first run: nothing is read, the scripted status is returned at once; later runs (second message) behave normally
+            env.update(sandbox.standin_env(rec, read="01", qq=True, exit_seq=["e%d" % qe[0], 0]))
         qf = sc.get("qqfail")
         if qf:
             env["VSHIM_FAULT"] = "qmail-smtpd:%s:%d:24" % (qf[0], qf[1])
@@ -265,6 +276,8 @@ def _e2e_worker(job):
                 return None
             if b"354" not in got:
                 return "no 354 after DATA: %r" % got[-100:]
+            if qe:
+                time.sleep(0.03)          # the refusing program has long exited when the first body byte arrives
             blob = payload + rest
             if sc["second"]:
                 blob += b"second\r\n.\r\n"
@@ -285,6 +298,13 @@ def _e2e_worker(job):
             stats.case(scenario=sc, nontrivial=any(b"." in l or b"\r" in l for l in lines), classes=["e2e"] + (["e2e_second_message"] if sc["second"] else []) +
                        (["e2e_over_databytes"] if over else []))
             refused = over and codes[:1] and codes[0][:1] == b"5"
+            if qe:
+                stats.case(scenario=sc, nontrivial=True, classes=["e2e_queue_program_exits_early"], key="qqearly-%r-%r" % (qe, sc["lines"]))
+                cls = b"5" if qe[0] == 31 else b"4"
+                if not codes or codes[0][:1] != cls:
+                    return ("queue program exited %d without reading its input: the message must be answered with a %sxx refusal after its "
+                            "CRLF.CRLF and the session must go on; replies after 354 were %r" % (qe[0], cls.decode(), codes))
+                refused = True
             if refused:
                 codes = [b"250"] + codes[1:]          # a message over control/databytes may be refused (552): then nothing of it is stored
             if sc["second"] and db and len(b"second\n") > db and len(codes) == len(want) and codes[5][:1] == b"5":
